@@ -156,10 +156,17 @@ func GenS(rng *Rng, prop, variant, tier string) *SScript {
 	if rng.Pct(50) {
 		cat(CatWrite{What: "db", DB: 7, DBN: "dbx", Ts: nextTs()}, true)
 	}
+	type lp struct {
+		id    int64
+		name  string
+		alive bool
+	}
 	type lc struct {
 		c     *SColl
 		alive bool
+		parts []*lp // non-default partitions
 	}
+	withParts := prop == "C04" // non-default partitions created and dropped during the run
 	var lives []*lc
 	createColl := func(name string, db int64, dbn string, pre bool) *lc {
 		c := &SColl{ID: newID(), DBID: db, DB: dbn, Name: name, Shard: rng.Range(1, 2), Ts: nextTs(), Parts: map[string]int64{}}
@@ -177,6 +184,27 @@ func GenS(rng *Rng, prop, variant, tier string) *SScript {
 	tick := func(pre bool) {
 		add(HEvent{K: "tick", Ts: nextTs()}, pre)
 	}
+	createPart := func(l *lc, pre bool) {
+		pt := &lp{id: newID(), name: fmt.Sprintf("p%d", len(l.parts)+1), alive: true}
+		l.parts = append(l.parts, pt)
+		l.c.Parts[pt.name] = pt.id
+		t := nextTs()
+		tag++
+		cat(CatWrite{What: "part", Coll: l.c.ID, Part: pt.id, PName: pt.name, State: int(pb.PartitionState_PartitionCreating), Ts: t}, pre)
+		for s := 0; s < l.c.Shard; s++ {
+			add(HEvent{K: "mq", PCh: srcPCh(s), Es: []*REntry{{Ts: t, Kind: "createp", Coll: l.c.ID, Part: pt.id, PartName: pt.name, Tag: tag}}}, pre)
+		}
+		cat(CatWrite{What: "part", Coll: l.c.ID, Part: pt.id, PName: pt.name, State: int(pb.PartitionState_PartitionCreated), Ts: t}, pre)
+	}
+	dropPart := func(l *lc, pt *lp) {
+		pt.alive = false
+		t := nextTs()
+		tag++
+		for s := 0; s < l.c.Shard; s++ {
+			add(HEvent{K: "mq", PCh: srcPCh(s), Es: []*REntry{{Ts: t, Kind: "dropp", Coll: l.c.ID, Part: pt.id, PartName: pt.name, Tag: tag}}}, false)
+		}
+		cat(CatWrite{What: "part", Coll: l.c.ID, Part: pt.id, PName: pt.name, State: int(pb.PartitionState_PartitionDropping), Ts: t}, false)
+	}
 	data := func(l *lc, pre bool) {
 		shard := rng.Intn(l.c.Shard)
 		kind := "ins"
@@ -185,6 +213,16 @@ func GenS(rng *Rng, prop, variant, tier string) *SScript {
 		}
 		tag++
 		e := &REntry{Ts: nextTs(), Kind: kind, Coll: l.c.ID, Shard: shard, PartName: "_default", Tag: tag}
+		var liveParts []*lp
+		for _, pt := range l.parts {
+			if pt.alive {
+				liveParts = append(liveParts, pt)
+			}
+		}
+		if len(liveParts) > 0 && rng.Pct(50) {
+			pt := Pick(rng, liveParts)
+			e.PartName, e.Part = pt.name, pt.id
+		}
 		for i := 0; i < rng.Range(1, 3); i++ {
 			row++
 			e.Rows = append(e.Rows, row)
@@ -198,6 +236,9 @@ func GenS(rng *Rng, prop, variant, tier string) *SScript {
 	}
 	for i := 0; i < nPre; i++ {
 		l := createColl(names[i], 1, "default", true)
+		if withParts && rng.Pct(40) {
+			createPart(l, true)
+		}
 		if !light {
 			for j := 0; j < rng.Range(0, 3); j++ {
 				data(l, true)
@@ -241,6 +282,27 @@ func GenS(rng *Rng, prop, variant, tier string) *SScript {
 						add(HEvent{K: "mq", PCh: srcPCh(s), Es: []*REntry{{Ts: t, Kind: "dropc", Coll: l.c.ID, Tag: tag}}}, false)
 					}
 					cat(CatWrite{What: "coll", DB: l.c.DBID, Coll: l.c.ID, Name: l.c.Name, State: int(pb.CollectionState_CollectionDropping), Ts: l.c.Ts, Shard: l.c.Shard}, false)
+				}
+			case withParts && x >= 50 && x < 85:
+				var alive []*lc
+				for _, l := range lives {
+					if l.alive {
+						alive = append(alive, l)
+					}
+				}
+				if len(alive) > 0 {
+					l := Pick(rng, alive)
+					var lps []*lp
+					for _, pt := range l.parts {
+						if pt.alive {
+							lps = append(lps, pt)
+						}
+					}
+					if len(lps) > 0 && rng.Pct(60) {
+						dropPart(l, Pick(rng, lps))
+					} else if len(l.parts) < 2 {
+						createPart(l, false)
+					}
 				}
 			case x < 30:
 				var alive []*lc
